@@ -17,5 +17,8 @@ ENGINES = {
     "C13": ("vf.engines.vspaces", {}),
     "C12": ("vf.engines.containers", {}),
     "C18": ("vf.engines.checker", {}),
+    "C19": ("vf.engines.history", {}),
+    "C20": ("vf.engines.threads", {}),
+    "C15": ("vf.engines.battery", {}),
 }
 PROPS = sorted(ENGINES)
